@@ -1,10 +1,11 @@
 #!/bin/bash
 # regenerate (port.py) and compile the stage-10 accounting chain in order, stop at the first failure:  build.sh [first-file]
-# needs the stage-10 chain (tools/port10s/build.sh) and the 6e / 6r chains compiled.
+# needs the stage-10 chain (tools/port10s/build.sh), the 6e / 6r chains, CstSound8Cor and the CR chain (tools/portcr/build.sh) compiled.
 cd /verif/coq; mkdir -p /tmp/s10e/log
 python3 /verif/tools/port10e/port.py || exit 1
-ORDER="10ebLv 10eNest 10eBText 10eBMain 10eRDoc 10eCor All"
-start=${1:-10ebLv}; go=0
+python3 /verif/tools/port10e/portcre.py || exit 1
+ORDER="All AllIncl 10ebLv 10eNest 10eBText 10eBMain 10eRDoc 10eCor 10eS8Nest 10eS8BText 10eS8BMain 10eS8RDoc AllCrBText AllCrBMain AllCrRDoc AllCor"
+start=${1:-All}; go=0
 for f in $ORDER; do
   [ "$f" = "$start" ] && go=1
   [ $go = 1 ] || continue
